@@ -26,15 +26,23 @@ def run(ctx):
     elif ctx.pid == "C12":
         ctx.cov["rule"] = ("RowsOf/ColsOf over the library result (UpdogStmt): one row per group, none for a grouped query without match, one count row otherwise; columns = "
                            "group-by columns + count, TEXT.. BIGINT. Every TLC-enumerated dataset (Gen_Lib: count and group selections) is opened through sql.Open with the four "
-                           "preload x lrucache option strings and every query of the projection is compared (Columns, ColumnTypes, every scanned row, Err).")
+                           "preload x lrucache option strings and every query of the projection is compared (Columns, ColumnTypes, every scanned row, Err). UpdogCursor/MC_Cursor: two result sets of one handle read at the same time, every interleaving "
+                           "of their steps (open, next row, end): each delivers exactly its own rows; the enumerated step orders are applied to pairs of real *sql.Rows.")
         import fam_lib
+        # result sets are snapshots (UpdogCursor): every interleaving of the steps of two cursors; the step orders are replayed below
+        ctx.design("MC_Cursor", "MC_Cursor.cfg", label="result sets are snapshots", workers=2)
+        ctx.negative_control("MC_Cursor", ctx.cfg_variant("MC_Cursor.cfg", dict(SharedBuffer="TRUE")), label="neg:SharedBuffer", workers=2)
+        sched = os.path.join(ctx.work, "sched.ndjson")
+        r = ctx.gen_to_file("MC_Cursor", ctx.cfg_variant("MC_Cursor.cfg", dict(Emit="TRUE", LenA=3 if thorough else 2)), sched, workers=1, label="gen-cursor-orders")
+        if r["emitted"] < 30:
+            raise Broken("MC_Cursor emitted too few step orders")
         for sel, mr, gb in [("count", 3 if thorough else 2, 0), ("groups", 3 if thorough else 2, 2)]:
             cfg = ctx.cfg_variant("Gen_Lib.cfg", dict(MaxRows=mr, MaxGB=gb, GenSel='"%s"' % sel))
             path = os.path.join(ctx.work, "gen_%s.ndjson" % sel)
             r = ctx.gen_to_file("Gen_Lib", cfg, path, workers=8, label="gen-" + sel)
             ctx.cov["states"] += r["distinct"]
             ctx.cov["transitions"] += r["generated"]
-            ctx.run_replay("replay-sql", ["-in", path, "-seed", seed], "replay-sql-" + sel, sigkeys=("kind", "dsn"))
+            ctx.run_replay("replay-sql", ["-in", path, "-seed", seed, "-sched", sched], "replay-sql-" + sel, sigkeys=("kind", "dsn"))
             if sel == "count":
                 # literals that differ only in the white space inside them
                 ctx.run_replay("replay-sql", ["-in", path, "-seed", seed, "-dict", "ws"], "replay-sql-whitespace-values", sigkeys=("kind", "dsn"))
